@@ -11,5 +11,7 @@ INVARIANT PrefixRefines
 INVARIANT NoLeakIsSignSum
 INVARIANT FullLeakIsSum
 INVARIANT PureColumn
+INVARIANT RecallIsFresh
+PROPERTY LeakImmutable
 INVARIANT Export
 CHECK_DEADLOCK FALSE
